@@ -57,6 +57,10 @@ func c11Cases(tier string, seed int64) []core.Case {
 			}})
 		}
 	}
+	for _, ifaces := range []string{"conn-only", "fid-only", "req-only"} {
+		ifaces := ifaces
+		cases = append(cases, core.Case{ID: "optional-interfaces/" + ifaces, Run: func(ctx *core.Ctx) core.Result { return c11Subset(ctx, ifaces) }})
+	}
 	for _, where := range []string{"fiddestroy", "connclosed"} {
 		where := where
 		cases = append(cases, core.Case{ID: "slow-teardown/" + where, Run: func(ctx *core.Ctx) core.Result { return c11SlowTeardown(ctx, where) }})
@@ -781,5 +785,116 @@ func c11SlowTeardown(ctx *core.Ctx, where string) core.Result {
 		res.Sig(fmt.Sprintf("slow-teardown|%s|%v|%d", where, dotu, round%3))
 	}
 	res.Sample(map[string]interface{}{"scenario": "bystander and new connection served while a disconnected connection's teardown is blocked in the implementation", "blocked_in": where})
+	return res
+}
+
+// c11Subset: implementations that provide only some of the optional interfaces: one that wants to hear about
+// connections but not about fids (ConnOps without SrvFidOps), one the other way round, one with neither. Whatever it
+// asked for is reported exactly once per disconnect, with idle fids and with requests still executing.
+func c11Subset(ctx *core.Ctx, ifaces string) core.Result {
+	var res core.Result
+	for round := 0; round < 8 && len(res.Violations) == 0; round++ {
+		dotu := round%2 == 0
+		s := NewSess(Config{Dotu: dotu, Msize: 8192, Maxpend: []int{0, 4}[round%2], Ifaces: ifaces})
+		mk := func() (*CConn, bool) {
+			c := s.Dial()
+			ver := "9P2000"
+			if dotu {
+				ver = "9P2000.u"
+			}
+			if r, err := c.Version(8192, ver, W); err != nil || r.Msg == nil || r.Msg.Type != wire.Rversion {
+				return c, false
+			}
+			r, err := c.Rpc(&wire.Msg{Type: wire.Tattach, Tag: 1, Fid: 1, Afid: wire.NOFID, Uname: "root", Nuname: 0}, W)
+			return c, err == nil && r.Msg != nil && r.Msg.Type == wire.Rattach
+		}
+		by, ok1 := mk()
+		v, ok2 := mk()
+		if !ok1 || !ok2 {
+			res.Inconclusive = "c11: setup failed (" + ifaces + ")"
+			return res
+		}
+		nf := 1 + round%4
+		for i := 0; i < nf; i++ {
+			v.Rpc(&wire.Msg{Type: wire.Twalk, Tag: uint16(10 + i), Fid: 1, Newfid: uint32(20 + i), Wname: []string{"d"}}, W)
+			v.Rpc(&wire.Msg{Type: wire.Tstat, Tag: uint16(30 + i), Fid: uint32(20 + i)}, W)
+		}
+		// with requests still executing at the disconnect in every second round
+		var gates []chan struct{}
+		if round%2 == 1 {
+			for i := 0; i < 2; i++ {
+				p := script.NewPlan()
+				p.Gate = make(chan struct{})
+				p.Entered = make(chan struct{})
+				s.Ops.SetPlan(v.ID, uint16(50+i), p)
+				_ = v.Send(&wire.Msg{Type: wire.Tstat, Tag: uint16(50 + i), Fid: uint32(20 + i%nf)})
+				select {
+				case <-p.Entered:
+					gates = append(gates, p.Gate)
+				case <-time.After(W):
+					close(p.Gate)
+				}
+			}
+		}
+		seq1 := s.Log.Seq()
+		shown := map[int64]bool{}
+		for _, ev := range s.Log.Snapshot(0) {
+			if ev.Kind == "op" && ev.Conn == v.ID {
+				for _, t := range []int64{ev.Fid, ev.Newfid} {
+					if t != 0 {
+						shown[t] = true
+					}
+				}
+			}
+		}
+		nclosed := s.Ctl.Passed("close.exit", 0, sched.AnyTag)
+		v.Hangup()
+		s.Ctl.WaitPassed("close.exit", 0, sched.AnyTag, nclosed+1, W)
+		for _, g := range gates {
+			close(g)
+		}
+		// the requests that were executing have left the implementation
+		waitFor(W, func() bool {
+			n := 0
+			for _, ev := range s.Log.Snapshot(seq1) {
+				if ev.Kind == "exit" && ev.Conn == v.ID {
+					n++
+				}
+			}
+			return n >= len(gates)
+		})
+		time.Sleep(2 * time.Millisecond)
+		res.Evals++
+		closedN, destroys := 0, map[int64]int{}
+		for _, ev := range s.Log.Snapshot(0) {
+			if ev.Kind == "connclosed" && ev.Conn == v.ID {
+				closedN++
+			}
+			if ev.Kind == "destroy" && shown[ev.Fid] {
+				destroys[ev.Fid]++
+			}
+		}
+		det := map[string]interface{}{"implementation_provides": ifaces, "fids": nf, "requests_executing_at_disconnect": len(gates), "dotu": dotu}
+		wantClosed := map[string]int{"conn-only": 1, "fid-only": 0, "req-only": 0}[ifaces]
+		if closedN != wantClosed {
+			res.Violate(fmt.Sprintf("C11;optional-interfaces;%s;connclosed=%d", ifaces, closedN), fmt.Sprintf("an implementation providing %s was told %d times that the victim connection closed (expected %d)", ifaces, closedN, wantClosed), det)
+		}
+		if ifaces == "fid-only" {
+			for tok := range shown {
+				if destroys[tok] != 1 {
+					res.Violate(fmt.Sprintf("C11;optional-interfaces;fid-only;destroy-count;n=%d", destroys[tok]), fmt.Sprintf("fid object %d of the disconnected connection was reported destroyed %d times", tok, destroys[tok]), det)
+					break
+				}
+			}
+		} else if len(destroys) != 0 {
+			res.Violate("C11;optional-interfaces;"+ifaces+";unexpected-destroy", "FidDestroy reached an implementation that does not provide SrvFidOps", det)
+		}
+		if r, err := by.Rpc(&wire.Msg{Type: wire.Tstat, Tag: 60, Fid: 1}, W); err != nil || r.Msg == nil || r.Msg.Type != wire.Rstat {
+			res.Violate("C11;optional-interfaces;"+ifaces+";bystander", "the bystander connection is no longer served", det)
+		}
+		by.Hangup()
+		res.Sig(fmt.Sprintf("subset|%s|%d|%d|%v", ifaces, nf, len(gates), dotu))
+	}
+	res.Sample(map[string]interface{}{"scenario": "implementation providing only some optional interfaces", "provides": ifaces})
 	return res
 }
